@@ -821,6 +821,19 @@ func runC10(c *Check) {
 					c.Decide("C10-R2", "SubmitBatchTxs ⟂ success-only-after-AddBatch-succeeded", fn, p.InstrPos(adds[0].In), "a submission is acknowledged only after the queue accepted it",
 						"SubmitBatchTxs can return success although AddBatch returned an error: the batch is acknowledged but was never written to the log or queued — it is never handed out, before or after a restart", g,
 						g.MustFollow(isAdd, nodeSet(addOK), g.SuccessExits()))
+					// … and a submission is accepted or refused as a whole: once the queue accepted
+					// (part of) it, the call does not end in an error — the reaper marks nothing seen on
+					// an error and hands everything over again, so what was already queued is queued, and
+					// included in a block, a second time
+					var errExits []*Node
+					for _, x := range g.Exits {
+						if g.ExitClass(x) == rcA && x.Ctx.Depth == 0 {
+							errExits = append(errExits, x)
+						}
+					}
+					c.Decide("C10-R2", "SubmitBatchTxs ⟂ no-error-after-the-queue-accepted", fn, p.InstrPos(adds[0].In), "no error return is reachable once AddBatch succeeded: the submission is queued whole or not at all",
+						"SubmitBatchTxs can return an error after the queue accepted a batch of the same submission (a submission split into several AddBatch calls, one of which is refused): the caller treats the whole hand-off as failed and repeats it, and the part already queued is handed out twice — its transactions are included in two blocks without any crash", g,
+						g.PathAvoiding(addOK, nodeSet(errExits), nil))
 				}
 			}
 			// every other entry point of the sequencer that touches the queue does so only after the id check
@@ -1201,6 +1214,7 @@ func runC11(c *Check) {
 	}
 	c.Doc("C11-R6", "= C10-R8: the sequencer's queue never returns an error after it removed the head from memory (the batch would be neither delivered nor kept).")
 	rulePoppedBatchHandedOut(c, sp, "C11-R6")
+	ruleSubmissionWhole(c, sp, "C11-R8")
 	ruleBasedHandOffCompletes(c, "C11-R7")
 	c.MinInstances("C11-R6", 1)
 	c.MinInstances("C11-R1", 2)
@@ -1453,4 +1467,34 @@ func ruleBasedHandOffCompletes(c *Check, rule string) {
 	if n == 0 {
 		c.Unk(rule, "anchor-count", "", "", "anchor lost: no function of the based sequencer hands a batch to the DA layer")
 	}
+}
+
+// ruleSubmissionWhole (C11-R8, also a sub-check of C10-R2): the hand-off of a reaped batch to the
+// single sequencer is accepted or refused as a whole. The reaper marks transactions seen only when
+// the hand-off returned nil, and repeats the whole hand-off otherwise: an error return after the
+// queue accepted part of the submission queues that part a second time on the retry.
+func ruleSubmissionWhole(c *Check, p *Prog, rule string) {
+	c.Doc(rule, "EO: in the single sequencer's SubmitBatchTxs no error return is reachable from the success edge of BatchQueue.AddBatch (a submission split over several AddBatch calls, one of which is refused, is repeated whole by the reaper: the accepted part is included in two blocks without any crash).")
+	sub := p.MustFunc("(*" + singlePkg + ".Sequencer).SubmitBatchTxs")
+	add := p.MustFunc("(*" + singlePkg + ".BatchQueue).AddBatch")
+	g := BuildECFG(p, sub, ExpandOpts{MaxDepth: 0})
+	c.NoteGraph(g)
+	addOK := g.Select(ErrNilEdge(func(t *Term) bool {
+		cv, ok := t.V.(*ssa.Call)
+		return ok && cv.Common().StaticCallee() == add
+	}))
+	if len(addOK) == 0 {
+		c.Unk(rule, "SubmitBatchTxs ⟂ AddBatch result", fnName(sub), "", "anchor lost: the result of AddBatch is not tested in SubmitBatchTxs")
+		return
+	}
+	var errExits []*Node
+	for _, x := range g.Exits {
+		if g.ExitClass(x) == rcA {
+			errExits = append(errExits, x)
+		}
+	}
+	c.Decide(rule, "SubmitBatchTxs ⟂ no-error-after-the-queue-accepted", fnName(sub), p.InstrPos(addOK[0].In), "no error return is reachable once AddBatch succeeded: the submission is queued whole or not at all",
+		"SubmitBatchTxs can return an error after the queue accepted a batch of the same submission: the reaper repeats the whole hand-off and the accepted part is handed out, and included in a block, twice", g,
+		g.PathAvoiding(addOK, nodeSet(errExits), nil))
+	c.MinInstances(rule, 1)
 }
